@@ -5,7 +5,7 @@ From Helm Require Import Common.Assoc Engine.Types Engine.Eff Engine.Ops Engine.
                          Engine.DryRun Engine.Ownership Engine.OwnershipProofs Engine.OwnershipCalls
                          Engine.OwnershipConfine Engine.OwnershipStamped Engine.OwnershipLookup
                          Engine.MatchDefs Engine.Stamp Engine.StampProofs Engine.StampWorld
-                         Engine.OwnershipFrame Engine.OwnershipOnlyIf Engine.OwnershipNs.
+                         Engine.OwnershipFrame Engine.OwnershipOnlyIf Engine.OwnershipNs Engine.OwnershipReq.
 Import ListNotations.
 Local Open Scope string_scope.
 
@@ -503,6 +503,61 @@ Example C07_ns_example :
                         (fst (fst (inst false w3))))) = ["other/ConfigMap/a"].
 Proof. exact ns_example. Qed.
 Print Assumptions C07_ns_example.
+
+(* ---- the request level of the pre-flight check ---- *)
+
+(* [run_store_op_rq] is [run_store_op] with a cluster handler that also logs the GETs of
+   existingResourceConflict / requireAdoption (one per visited resource, in order, stopping after a
+   rejected GET or, without take-ownership, after the first un-owned object) as a call "existing".
+   It computes the same world and outcome, and the same trace once those events are erased *)
+Theorem C07_request_log_refines :
+  forall (rn ns : string) (c : opcase) (w : world),
+    fst (run_store_op_rq rn ns c w) = fst (run_store_op rn ns c w) /\
+    filter (fun e => negb (match e with TKube (KCall n _) => String.eqb n "existing" | TStore _ _ _ => false end))
+           (snd (run_store_op_rq rn ns c w)) = snd (run_store_op rn ns c w).
+Proof. exact run_store_op_rq_refines. Qed.
+Print Assumptions C07_request_log_refines.
+
+(* every operation, any flags / world / fault plan: in the logged trace the pre-flight look-up —
+   if there is one — is the FIRST event and there is no second one: no storage write and no
+   cluster call that could POST, PATCH or DELETE precedes a pre-flight GET *)
+Theorem C07_preflight_gets_first :
+  forall (rn ns : string) (c : opcase) (w : world),
+    Forall (fun e => match e with TKube (KCall n _) => String.eqb n "existing" | TStore _ _ _ => false end = false)
+           (snd (run_store_op_rq rn ns c w)) \/
+    exists g rest,
+      snd (run_store_op_rq rn ns c w) = TKube (KCall "existing" (map (fun key => (VGet, key)) g)) :: rest /\
+      Forall (fun e => match e with TKube (KCall n _) => String.eqb n "existing" | TStore _ _ _ => false end = false) rest.
+Proof. exact preflight_gets_first. Qed.
+Print Assumptions C07_preflight_gets_first.
+
+(* a refused operation sent nothing but its pre-flight GETs *)
+Theorem C07_refused_log_is_gets :
+  forall (rn ns : string) (c : opcase) (w : world),
+    snd (run_store_op rn ns c w) = [] ->
+    snd (run_store_op_rq rn ns c w) = [] \/
+    exists g, snd (run_store_op_rq rn ns c w) = [TKube (KCall "existing" (map (fun key => (VGet, key)) g))].
+Proof. exact refused_log_is_gets. Qed.
+Print Assumptions C07_refused_log_is_gets.
+
+(* the GETs of a look-up are those of a prefix of the looked-up resources, in order *)
+Theorem C07_preflight_gets_prefix :
+  forall (rn ns : string) (rs : list res) (k : kstate) (take : bool),
+    exists n, existing_gets rn ns k rs take = firstn n (map rkey rs).
+Proof. exact existing_gets_prefix. Qed.
+Print Assumptions C07_preflight_gets_prefix.
+
+Example C07_preflight_example :
+  let cm n := mkRes "ConfigMap" n [("d:k", "v")] in
+  let fl := mkFlags false false false false 0 false false false false 0 in
+  let run objs := snd (run_store_op_rq "rel" "default"
+                         (mkOp (OpInstall fl 1 1 [cm "a"; cm "b"; cm "c"] []) (mkSF None None) (mkCF None None false)) (mkW [] objs)) in
+  firstn 3 (run []) = [TKube (KCall "existing" [(VGet, "ConfigMap/a"); (VGet, "ConfigMap/b"); (VGet, "ConfigMap/c")]);
+                       TStore "create" 1 SPendingInstall;
+                       TKube (KCall "create" [(VCreate, "ConfigMap/a"); (VCreate, "ConfigMap/b"); (VCreate, "ConfigMap/c")])] /\
+  run [("ConfigMap/b", [("d:k", "live")])] = [TKube (KCall "existing" [(VGet, "ConfigMap/a"); (VGet, "ConfigMap/b")])].
+Proof. exact preflight_example. Qed.
+Print Assumptions C07_preflight_example.
 
 (* ---- non-vacuity ---- *)
 
